@@ -56,12 +56,12 @@ type Case struct {
 	// [8*decl+4*pre+2*post+body, pt, qt, D, R, gpt, gqt, E] (layout of SiteRow in Conditions.tla)
 	RawSites [][]int `json:"sites"`
 	Sites    []Site  `json:"-"`
-	Dd    int     `json:"d"`     // increment performed by the body of f
-	Rr    int     `json:"r"`     // value returned by the body of f
-	Nest  bool    `json:"nest"`  // body of C.f calls self.g
-	Ee    int     `json:"e"`     // increment performed by the body of g
-	Via   int     `json:"via"`   // 0: call on a value of static type C; i>0: through a value of type {Ii}
-	PS    string  `json:"ps"`    // parameter shape of f: none | res1 | int_res | res_int_res | optres
+	Dd       int     `json:"d"`    // increment performed by the body of f
+	Rr       int     `json:"r"`    // value returned by the body of f
+	Nest     bool    `json:"nest"` // body of C.f calls self.g
+	Ee       int     `json:"e"`    // increment performed by the body of g
+	Via      int     `json:"via"`  // 0: call on a value of static type C; i>0: through a value of type {Ii}
+	PS       string  `json:"ps"`   // parameter shape of f: none | res1 | int_res | res_int_res | optres
 }
 
 type Row struct {
